@@ -117,11 +117,10 @@ impl Regex {
     /// Verification hook: like `xpath` / `xsd`, optionally with all compile-time
     /// optimisations switched off.
     pub fn verif_new(re: &str, flags: &str, xsd: bool, optimize: bool) -> Result<Self, Error> {
-        crate::verif::set_no_optimize(!optimize);
+        // the guard resets the switch even if compilation panics
+        let _guard = crate::verif::NoOptimizeGuard::set(!optimize);
         let language = if xsd { Language::XSD } else { Language::XPath };
-        let r = Self::new(re, flags, language);
-        crate::verif::set_no_optimize(false);
-        r
+        Self::new(re, flags, language)
     }
 }
 
